@@ -400,6 +400,9 @@ func converge(k *mon.Case, r *rand.Rand, shard int) {
 	defer b.Close()
 	// shared prefix
 	prefix := 3 + r.Intn(25)
+	if r.Intn(7) == 0 {
+		prefix = r.Intn(3) // forks directly (or almost) after the genesis block
+	}
 	for i := 0; i < prefix; i++ {
 		blk, err := plain(a, r)
 		if err != nil || a.Apply(blk) != nil || b.Apply(node.CloneBlock(blk)) != nil {
@@ -417,7 +420,28 @@ func converge(k *mon.Case, r *rand.Rand, shard int) {
 		forkA = 1 + r.Intn(3)
 	}
 	atFinalized := forkA > 0 && r.Intn(3) == 0
-	if atFinalized {
+	// lowerButBetter: the node's own fork is built by one validator alone (long, no new
+	// prevotes), the peer's chain by everybody (shorter, higher maxHeightPrevoted)
+	lowerButBetter := !atFinalized && r.Intn(6) == 0
+	if lowerButBetter {
+		forkA = 0
+		target := nv + 1 + r.Intn(nv-1)
+		for i := 0; i < target; i++ {
+			o := node.BlockOpts{SlotsAhead: nv, Directive: &node.Directive{Salt: r.Intn(1 << 20)}}
+			if i == 0 {
+				o.SlotsAhead = 1 + r.Intn(nv)
+			}
+			blk, err := a.NextBlock(o)
+			if err != nil || a.Apply(blk) != nil {
+				break
+			}
+			forkA++
+		}
+		if forkA == 0 {
+			k.Inconclusive("build-fork-a")
+			return
+		}
+	} else if atFinalized {
 		// own fork long enough to finalize the last common block: the common block then sits
 		// exactly at the finalized height (the lowest the node may legitimately go back to)
 		forkA = 0
@@ -448,6 +472,12 @@ func converge(k *mon.Case, r *rand.Rand, shard int) {
 	}
 	if ahead <= forkA {
 		ahead = forkA + 1
+	}
+	if lowerButBetter {
+		ahead = nv + r.Intn(forkA-nv+1) // enough blocks by everybody to prevote, not more than the own fork
+		if ahead > forkA {
+			ahead = forkA
+		}
 	}
 	for i := 0; i < ahead; i++ {
 		blk, err := plain(b, r)
@@ -582,6 +612,9 @@ func syncAndJudge(k *mon.Case, a, b *node.Node, remote *p2p.AddrInfo, ev *evil, 
 			break
 		}
 	}
+	if mode == "honest" && tipB.Header.Height <= ta.Height && better {
+		k.Count("peer_tip_better_but_not_higher", 1)
+	}
 	if a.Finalized() < finA {
 		k.Violation("converge:finalized-height-decreased"+tag, "finalized height decreased during sync", wit)
 	}
@@ -606,6 +639,18 @@ func syncAndJudge(k *mon.Case, a, b *node.Node, remote *p2p.AddrInfo, ev *evil, 
 		// fast sync legitimately gives up ("wait for new block") when the common block lies more
 		// than two rounds below either tip; the node must then get there through the peer's next
 		// blocks. Bounded progress: within 2 rounds + 2 further blocks of the peer.
+		if bytes.Equal(a.Tip().Header.ID, b.Tip().Header.ID) {
+			k.Count(fmt.Sprintf("converged_at_first_offer:forkA<=%d:ahead<=%d", (forkA+nv-1)/nv, (ahead+nv-1)/nv), 1)
+		} else if forkA <= 2*nv-2 && ahead <= 2*nv-2 {
+			// both tips lie within two rounds of the common block: fast sync applies to this very
+			// offer, there is nothing to wait for (the node may otherwise stay on the worse chain
+			// until the peer happens to overtake it in height)
+			wit["a_tip_after"], wit["b_tip"] = a.Tip().Header.Height, b.Tip().Header.Height
+			k.Violation("converge:honest-peer-not-followed:within-two-rounds", "node offered a better valid chain whose fork point lies within two rounds of both tips did not switch to it", wit)
+			return wit, false
+		} else {
+			k.Count(fmt.Sprintf("first_offer_not_followed:forkA<=%d:ahead<=%d:prefix>0=%v:err=%.40s", (forkA+nv-1)/nv, (ahead+nv-1)/nv, prefix > 0, fmt.Sprint(perr)), 1)
+		}
 		for extra := 0; extra < 2*nv+2 && !bytes.Equal(a.Tip().Header.ID, b.Tip().Header.ID); extra++ {
 			nb, err := plain(b, rand.New(rand.NewSource(int64(extra)+int64(prefix))))
 			if err != nil || b.Apply(nb) != nil {
